@@ -129,6 +129,10 @@ class Recorder:
         self.current = 0
         self.spin = 0
         self.sample_fn = None    # () -> (active, limit, extra_rejections)
+        self.depth_fn = lambda: len(self.policy)          # items held by the queue
+        self.x_fn = lambda: policy_drops(self.policy)     # drops the policy reports itself
+        self.qdrop_fn = lambda: self.res._queue.stats_dropped   # refusals counted by the Queue entity
+        self.last_lim = None
 
     # -- sampling ----------------------------------------------------------
     def tick(self):
@@ -138,10 +142,8 @@ class Recorder:
 
     def sample(self):
         active, limit, extra = self.sample_fn()
-        x = policy_drops(self.policy)
-        q = self.res._queue if hasattr(self.res, "_queue") else None
-        dropped = q.stats_dropped if q is not None else 0
-        return [active, INF if limit >= INF else limit, len(self.policy), x, dropped + extra + x]
+        x = self.x_fn()
+        return [active, INF if limit >= INF else limit, self.depth_fn(), x, self.qdrop_fn() + extra + x]
 
     def rec(self, op, i, defer=False):
         r = [op, i, self.tick()]
@@ -153,6 +155,13 @@ class Recorder:
         self.log.append(r)
         if len(self.log) > 20000:
             raise RuntimeError("C08 recorder overflow (spin?)")
+
+    def note_limit(self):
+        """One "lim" record per change of the concurrency limit, whoever changed it."""
+        lim = self.sample_fn()[1]
+        if lim != self.last_lim:
+            self.last_lim = lim
+            self.rec("lim", 0)
 
     def flush(self):
         if self.pending:
@@ -231,18 +240,13 @@ def instrument(res, rec: Recorder, rejected_fn):
     wk.handle_event = wk_handle
 
     r_orig = res.handle_event
-    last = {"lim": None}
+    rec.last_lim = rec.sample_fn()[1]
 
     def r_handle(event):
-        if last["lim"] is None:
-            last["lim"] = rec.sample_fn()[1]
         try:
             return r_orig(event)
         finally:
-            lim = rec.sample_fn()[1]
-            if lim != last["lim"]:
-                last["lim"] = lim
-                rec.rec("lim", 0)
+            rec.note_limit()
 
     res.handle_event = r_handle
 
@@ -294,18 +298,52 @@ class ScriptedLatency(LatencyDistribution):
 PIPE_PRM = {"pfc": INF, "mxf": INF, "thr": INF, "bm": 0}
 
 
-def run_scenario(sc, tick_ns=10 ** 9, retarget_hops=False, end_tick=None):
-    """sc = dict(wk, lim, cap, pol, arr=[dict(t,h,s,p)], sh=dict(t,l)).  Returns the trace dict."""
+class LimitSetter(Entity):
+    """Harness entity: calls DynamicConcurrency.set_limit at scheduled instants."""
+
+    def __init__(self, model, rec):
+        super().__init__("limsetter")
+        self.model = model
+        self.rec = rec
+
+    def handle_event(self, event):
+        self.model.set_limit(event.context["metadata"]["lim"])
+        self.rec.note_limit()
+        return None
+
+
+def mk_sc(wk="server", lim=1, kind="fifo", cap=INF, arr=(), sh=(0, 0), dyn=(), rt=0, W=(1,), **prm):
+    """Scenario record as QueuePipe.tla reads it."""
+    p = dict(PIPE_PRM, kind=kind, cap=cap)
+    p.update(prm)
+    return {"wk": wk, "lim": lim, "prm": p, "W": list(W),
+            "arr": [dict(t=a["t"], h=a.get("h", 0), s=a.get("s", 1), p=a.get("p", 0), f=a.get("f", 1)) for a in arr],
+            "sh": {"t": sh[0], "l": sh[1]}, "dyn": [{"t": t, "l": l} for (t, l) in dyn], "rt": rt}
+
+
+def run_scenario(sc, tick_ns=10 ** 9, end_tick=None, seed=0, weights=None):
+    """One queue-fronted worker (Server or ShiftedServer) in a real Simulation.  Arrival events are created
+    up front in item order (then the set_limit events), items travel through `h` forwarders.
+    weights: per-item capacity units -> Server with WeightedConcurrency (not modelled by QueuePipe)."""
     n = len(sc["arr"])
     rec = Recorder(tick_ns)
-    prm = dict(PIPE_PRM, kind=sc["pol"], cap=sc["cap"])
-    pol = make_policy(prm, [1])          # the configured policy
+    prm, Wt = sc["prm"], sc["W"]
+    holder = {}
+    pol = make_policy(prm, Wt, clock=lambda: holder["res"].now, tick_ns=tick_ns)   # the configured policy
     sink = Sink(rec)
     svc = {j + 1: a["s"] for j, a in enumerate(sc["arr"])}
     tick_s = tick_ns // 10 ** 9
     assert tick_s * 10 ** 9 == tick_ns, "ticks are whole seconds (float conversions stay exact)"
+    setter = None
     if sc["wk"] == "server":
-        res = Server("srv", concurrency=sc["lim"], service_time=ScriptedLatency(rec, svc, tick_ns),
+        if weights is not None:
+            conc = WeightedConcurrency(sc["lim"])
+        elif sc["dyn"]:
+            conc = DynamicConcurrency(sc["lim"], min_limit=1, max_limit=None)
+            setter = LimitSetter(conc, rec)
+        else:
+            conc = sc["lim"]
+        res = Server("srv", concurrency=conc, service_time=ScriptedLatency(rec, svc, tick_ns),
                      queue_policy=pol, downstream=sink)
         rec.sample_fn = lambda: (res.active_requests, res.concurrency, res._requests_rejected)
         instrument(res, rec, lambda: res._requests_rejected)
@@ -321,42 +359,61 @@ def run_scenario(sc, tick_ns=10 ** 9, retarget_hops=False, end_tick=None):
                             downstream=sink, policy=pol)
         rec.sample_fn = lambda: (res._active, res._current_capacity, 0)
         instrument(res, rec, lambda: 0)
+    holder["res"] = res
     maxh = max([a["h"] for a in sc["arr"]], default=0)
     hops = []
     nxt = res
     for k in range(maxh):
-        h = Hop(f"hop{k + 1}", nxt, retarget=retarget_hops)
+        h = Hop(f"hop{k + 1}", nxt, retarget=bool(sc["rt"]))
         hops.append(h)
         nxt = h
     kw = {}
     if end_tick is not None:
         kw["end_time"] = Instant(end_tick * tick_ns)
-    sim = Simulation(entities=[res, sink, *hops], **kw)
-    for j, a in enumerate(sc["arr"], start=1):
-        target = res if a["h"] == 0 else hops[a["h"] - 1]
-        sim.schedule(Event(time=Instant(a["t"] * tick_ns), event_type="req", target=target,
-                           context={"metadata": {"i": j, "p": a["p"], "f": 1}}))
+    ents = [res, sink, *hops] + ([setter] if setter else [])
+    st = random.getstate()
+    random.seed(seed)
     err = None
     try:
+        sim = Simulation(entities=ents, **kw)
+        for j, a in enumerate(sc["arr"], start=1):
+            target = res if a["h"] == 0 else hops[a["h"] - 1]
+            md = {"i": j, "p": a["p"], "f": a["f"]}
+            if weights is not None:
+                md["weight"] = weights[j - 1]
+            sim.schedule(Event(time=Instant(a["t"] * tick_ns), event_type="req", target=target,
+                               context={"metadata": md}))
+        for d in sc["dyn"]:
+            sim.schedule(Event(time=Instant(d["t"] * tick_ns), event_type="setlim", target=setter, daemon=True,
+                               context={"metadata": {"lim": d["l"]}}))
         sim.run()
     except Exception as ex:      # noqa: BLE001 - recorded as an observation
         err = f"{type(ex).__name__}: {ex}"
+    finally:
+        random.setstate(st)
     rec.flush()
     rec.log.append(["end", 1 if end_tick is None else 0, rec.tick() if end_tick is None else end_tick,
                     *rec.sample()])
     q = res._queue
     completed = res.stats.requests_completed if sc["wk"] == "server" else res.processed
-    tr = _trace(prm, rep_cap(pol), [1], [a["p"] for a in sc["arr"]], [1] * n, sc["lim"], rec.log,
-                idle=1, order=1, cnt=1, sink=1, fin=[q.stats_accepted, completed], wk=sc["wk"], sc=sc)
+    modelled = end_tick is None and weights is None and not (prm["thr"] < INF and prm["bm"] == 2)
+    wk = sc["wk"] if not sc["dyn"] else "server_dyn"
+    tr = _trace(prm, rep_cap(pol), [max(1, w) for w in Wt], [a["p"] for a in sc["arr"]],
+                [a["f"] for a in sc["arr"]], sc["lim"], rec.log,
+                idle=0 if weights is not None else 1, order=1, cnt=1, sink=1,
+                fin=[q.stats_accepted, completed], wk=wk, sc=sc, wt=weights)
+    if not modelled:
+        tr["hassc"] = 0
     return tr, err
 
 
-EMPTY_SC = {"wk": "server", "lim": 1, "cap": INF, "pol": "fifo", "arr": [], "sh": {"t": 0, "l": 0}}
+EMPTY_SC = mk_sc()
 
 
-def _trace(prm, rcap, W, P, F, lim0, log, *, idle, order, cnt, sink, fin, wk, allof=1, sc=None):
-    return {"prm": prm, "rcap": rcap, "W": W, "P": P, "F": F, "lim0": lim0, "idle": idle, "order": order,
-            "cnt": cnt, "sink": sink, "allof": allof, "hassc": 1 if sc else 0, "sc": sc or EMPTY_SC,
+def _trace(prm, rcap, W, P, F, lim0, log, *, idle, order, cnt, sink, fin, wk, allof=1, sc=None, wt=None):
+    return {"prm": prm, "rcap": rcap, "W": W, "P": P, "F": F, "wt": wt or [1] * len(P),
+            "disc": 1 if wk in ("shifted", "reneging") else 0, "lim0": lim0, "idle": idle, "order": order,
+            "cnt": cnt, "sink": sink, "allof": allof, "dbg": 0, "hassc": 1 if sc else 0, "sc": sc or EMPTY_SC,
             "fin": fin, "log": log, "wk": wk}
 
 
@@ -409,99 +466,10 @@ def run_policy_ops(prm, W, ops, seed=0):
     log.append(["end", 0, now[0], 0, 0, len(pol), x, 0])
     inner = pol.inner if isinstance(pol, BalkingQueue) else pol
     pub = inner.stats.enqueued if hasattr(inner, "stats") and hasattr(inner.stats, "enqueued") else enq
-    tr = _trace(prm, rep_cap(pol), W, P, F, 0, log, idle=0, order=1, cnt=0, sink=0, fin=[pub, 0], wk="policy")
+    # the reference is given the weights the policy documents (a weight below 1 counts as 1)
+    tr = _trace(prm, rep_cap(pol), [max(1, w) for w in W], P, F, 0, log, idle=0, order=1, cnt=0, sink=0,
+                fin=[pub, 0], wk="policy")
     return tr, results
-
-
-# ---------------------------------------------------------------------------
-# a Server (any policy, any concurrency model) inside a real Simulation, arrivals through hop chains
-
-class LimitSetter(Entity):
-    """Harness entity: calls DynamicConcurrency.set_limit at scheduled instants."""
-
-    def __init__(self, model, rec):
-        super().__init__("limsetter")
-        self.model = model
-        self.rec = rec
-
-    def handle_event(self, event):
-        before = self.model.limit
-        self.model.set_limit(event.context["metadata"]["lim"])
-        if self.model.limit != before:
-            self.rec.rec("lim", 0)
-        return None
-
-
-def run_pipeline(cfg, tick_ns=10 ** 9, seed=0):
-    """cfg: prm, W, lim, arr=[dict(t,h,s,p,f,w)], optional dyn=[(t, lim)], weighted=bool, end_tick,
-    retarget (hops re-use the event object)."""
-    rec = Recorder(tick_ns)
-    prm, W = cfg["prm"], cfg["W"]
-    arr = cfg["arr"]
-    svc = {j + 1: a["s"] for j, a in enumerate(arr)}
-    holder = {}
-    pol = make_policy(prm, W, clock=lambda: holder["res"].now, tick_ns=tick_ns)
-    sink = Sink(rec)
-    weighted = cfg.get("weighted", False)
-    if cfg.get("dyn"):
-        model = DynamicConcurrency(cfg["lim"], min_limit=1, max_limit=None)
-    elif weighted:
-        model = WeightedConcurrency(cfg["lim"])
-    else:
-        model = cfg["lim"]
-    res = Server("srv", concurrency=model, service_time=ScriptedLatency(rec, svc, tick_ns), queue_policy=pol,
-                 downstream=sink)
-    holder["res"] = res
-    rec.sample_fn = lambda: (res.active_requests, res.concurrency, res._requests_rejected)
-    instrument(res, rec, lambda: res._requests_rejected)
-    maxh = max([a["h"] for a in arr], default=0)
-    hops, nxt = [], res
-    for k in range(maxh):
-        h = Hop(f"hop{k + 1}", nxt, retarget=cfg.get("retarget", False))
-        hops.append(h)
-        nxt = h
-    ents = [res, sink, *hops]
-    setter = None
-    if cfg.get("dyn"):
-        setter = LimitSetter(model, rec)
-        ents.append(setter)
-    kw = {}
-    if cfg.get("end_tick") is not None:
-        kw["end_time"] = Instant(cfg["end_tick"] * tick_ns)
-    st = random.getstate()
-    random.seed(seed)
-    err = None
-    try:
-        sim = Simulation(entities=ents, **kw)
-        evs = []
-        for j, a in enumerate(arr, start=1):
-            target = res if a["h"] == 0 else hops[a["h"] - 1]
-            md = {"i": j, "p": a["p"], "f": a["f"]}
-            if weighted:
-                md["weight"] = a.get("w", 1)
-            evs.append(Event(time=Instant(a["t"] * tick_ns), event_type="req", target=target,
-                             context={"metadata": md}))
-        for (t, lim) in cfg.get("dyn") or []:
-            evs.append(Event(time=Instant(t * tick_ns), event_type="setlim", target=setter, daemon=True,
-                             context={"metadata": {"lim": lim}}))
-        if cfg.get("shuffle") is not None:
-            random.Random(cfg["shuffle"]).shuffle(evs)
-        for e in evs:
-            sim.schedule(e)
-        sim.run()
-    except Exception as ex:      # noqa: BLE001
-        err = f"{type(ex).__name__}: {ex}"
-    finally:
-        random.setstate(st)
-    rec.flush()
-    # limit changes made from outside a handler of the component show up as samples only
-    end_t = cfg["end_tick"] if cfg.get("end_tick") is not None else rec.tick()
-    rec.log.append(["end", 0 if cfg.get("end_tick") is not None else 1, end_t, *rec.sample()])
-    n = len(arr)
-    tr = _trace(prm, rep_cap(pol), W, [a["p"] for a in arr], [a["f"] for a in arr], cfg["lim"], rec.log,
-                idle=0 if weighted else 1, order=1, cnt=1, sink=1, fin=[res.stats_accepted, res.stats.requests_completed],
-                wk="server_dyn" if cfg.get("dyn") else "server")
-    return tr, err
 
 
 # ---------------------------------------------------------------------------
@@ -566,4 +534,316 @@ def run_topology(rng: random.Random, tick_ns=10 ** 9):
                              fin=[srv.stats_accepted, srv.stats.requests_completed], wk="server"))
     return traces, err, sorted(sink.got)
 
-STATIONS = []
+
+# ---------------------------------------------------------------------------
+# industrial variants (each returns (trace, err)); observation by instance-level wrappers only
+
+def _arrivals(rng, n, tmax, hmax=2):
+    burst = rng.random() < 0.6
+    return [dict(t=rng.choice((0, tmax)) if burst else rng.randint(0, tmax), h=rng.randint(0, hmax)) for _ in range(n)]
+
+
+def _run_station(res, rec, arr, extra_entities=(), pre=(), tick_ns=10 ** 9, meta=None, end_tick=None):
+    """Common driver: hop chain in front of `res`, arrivals created up front in item order."""
+    maxh = max([a["h"] for a in arr], default=0)
+    hops, nxt = [], res
+    for k in range(maxh):
+        h = Hop(f"hop{k + 1}", nxt)
+        hops.append(h)
+        nxt = h
+    kw = {"end_time": Instant(end_tick * tick_ns)} if end_tick is not None else {}
+    err = None
+    try:
+        sim = Simulation(entities=[res, *extra_entities, *hops], **kw)
+        for e in pre:
+            sim.schedule(e() if callable(e) else e)
+        for j, a in enumerate(arr, start=1):
+            md = {"i": j, "p": 0, "f": 1}
+            ctx = {"metadata": md}
+            if meta:
+                ctx.update(meta(j, a))
+            sim.schedule(Event(time=Instant(a["t"] * tick_ns), event_type="req",
+                               target=res if a["h"] == 0 else hops[a["h"] - 1], context=ctx))
+        sim.run()
+    except Exception as ex:      # noqa: BLE001
+        err = f"{type(ex).__name__}: {ex}"
+    rec.flush()
+    rec.log.append(["end", 1 if end_tick is None else 0, rec.tick() if end_tick is None else end_tick, *rec.sample()])
+    return err
+
+
+def station_reneging(rng: random.Random):
+    """RenegingQueuedResource with a worker following the `_in_flight` pattern of QueuedResource."""
+    tick_ns = 10 ** 9
+    n = rng.randint(2, 7)
+    arr = _arrivals(rng, n, rng.choice((0, 1, 3)))
+    lim = rng.randint(1, 2)
+    svc = {j + 1: rng.randint(0, 3) for j in range(n)}
+    pat = {j + 1: rng.choice((0, 1, 2, None)) for j in range(n)}
+    kind = rng.choice(("fifo", "fifo", "lifo"))
+    prm = dict(PIPE_PRM, kind=kind, cap=rng.choice((2, INF, INF)))
+    pol = make_policy(prm, [1])
+    rec = Recorder(tick_ns)
+    sink, gone = Sink(rec), Sink(None, "reneged")
+
+    class Worker(RenegingQueuedResource):
+        def __init__(self):
+            super().__init__("ren", reneged_target=gone, default_patience_s=float("inf"), policy=pol)
+            self._in_flight = 0
+
+        def has_capacity(self):
+            return self._in_flight < lim
+
+        def _handle_served_event(self, event):
+            self._in_flight += 1
+            yield float(svc[item_of(event)])
+            self._in_flight -= 1
+            return [self.forward(event, sink)]
+
+    res = Worker()
+    rec.sample_fn = lambda: (res._in_flight, lim, res._reneged)
+    instrument(res, rec, lambda: res._reneged)
+
+    def meta(j, a):
+        return {} if pat[j] is None else {"patience_s": float(pat[j])}
+
+    err = _run_station(res, rec, arr, extra_entities=(sink, gone), meta=meta)
+    tr = _trace(prm, rep_cap(pol), [1], [0] * n, [1] * n, lim, rec.log, idle=1, order=1, cnt=1, sink=1,
+                fin=[res.stats_accepted, sum(1 for r in rec.log if r[0] == "fin")], wk="reneging")
+    return tr, err
+
+
+class _Depth:
+    """len() adapter so that a Recorder can sample a station's own buffer."""
+
+    def __init__(self, fn):
+        self.fn = fn
+
+    def __len__(self):
+        return self.fn()
+
+
+def _station_rec(tick_ns, res, depth_fn, sample_fn):
+    rec = Recorder(tick_ns)
+    rec.res = res
+    rec.policy = _Depth(depth_fn)
+    rec.x_fn = lambda: 0
+    rec.qdrop_fn = lambda: 0
+    rec.sample_fn = sample_fn
+    return rec
+
+
+def station_pooled(rng: random.Random):
+    from happysimulator.components.industrial.pooled_cycle import PooledCycleResource
+
+    tick_ns = 10 ** 9
+    n = rng.randint(2, 8)
+    arr = _arrivals(rng, n, rng.choice((0, 1, 2)))
+    pool, qc = rng.randint(1, 3), rng.choice((0, 0, 1, 2))
+    sink_holder = {}
+    res = PooledCycleResource("pool", pool_size=pool, cycle_time=float(rng.randint(0, 2)), downstream=None,
+                              queue_capacity=qc)
+    rec = _station_rec(tick_ns, res, lambda: res.queued, lambda: (res.active, pool, res.rejected))
+    sink = Sink(rec)
+    res.downstream = sink
+    transit = set()
+    orig = res.handle_event
+
+    def drive(gen, i):
+        v = next(gen)
+        transit.discard(i)
+        rec.rec("sta", i)
+        sent = yield v
+        try:
+            gen.send(sent)
+        except StopIteration as e:
+            rec.rec("fin", i)
+            for ev in e.value or []:
+                if ev.target is res:
+                    transit.add(item_of(ev))
+                    rec.rec("pop", item_of(ev))
+            return e.value
+        raise RuntimeError("PooledCycleResource generator yielded twice")
+
+    def handle(event):
+        i = item_of(event)
+        b = (res.queued, res.rejected)
+        out = orig(event)
+        if isinstance(out, Generator):
+            return drive(out, i)
+        if res.rejected > b[1]:
+            rec.rec("rjq" if i in transit else "rej", i)
+        elif res.queued > b[0]:
+            rec.rec("req" if i in transit else "psh", i)
+        transit.discard(i)
+        return out
+
+    res.handle_event = handle
+    err = _run_station(res, rec, arr, extra_entities=(sink,))
+    prm = dict(PIPE_PRM, kind="fifo", cap=INF if qc == 0 else qc)
+    tr = _trace(prm, prm["cap"], [1], [0] * n, [1] * n, pool, rec.log, idle=1, order=1, cnt=1, sink=1,
+                fin=[sum(1 for r in rec.log if r[0] == "psh"), res.completed], wk="pooled")
+    return tr, err
+
+
+def station_gate(rng: random.Random):
+    from happysimulator.components.industrial.gate_controller import _GATE_CLOSE, _GATE_OPEN, GateController
+
+    tick_ns = 10 ** 9
+    n = rng.randint(2, 8)
+    arr = _arrivals(rng, n, rng.choice((0, 2, 4)))
+    qc = rng.choice((0, 0, 1, 2))
+    initially_open = rng.random() < 0.4
+    sched, t = [], 0
+    for _ in range(rng.randint(1, 2)):
+        o = t + rng.randint(0, 2)
+        c = o + rng.randint(0, 2)
+        sched.append((float(o), float(c)))
+        t = c
+    state = {"n": 0, "depth": None}
+    res = GateController("gate", downstream=None, schedule=sched, initially_open=initially_open, queue_capacity=qc)
+    rec = _station_rec(tick_ns, res, lambda: res.queue_depth if state["depth"] is None else state["depth"],
+                       lambda: (state["n"], INF if res.is_open else 0, res.stats.rejected))
+    sink = Sink(rec)
+    res.downstream = sink
+    rec.last_lim = INF if initially_open else 0
+    orig = res.handle_event
+
+    def through(i):
+        state["n"] += 1
+        rec.rec("sta", i)
+        state["n"] -= 1
+        rec.rec("fin", i)
+
+    def handle(event):
+        b = res.stats
+        out = orig(event)
+        a = res.stats
+        if event.event_type in (_GATE_OPEN, _GATE_CLOSE):
+            rec.note_limit()
+            state["depth"] = len(out or [])        # the flush empties the queue in one go
+            for ev in out or []:
+                state["depth"] -= 1
+                rec.rec("pop", item_of(ev))
+                through(item_of(ev))
+            state["depth"] = None
+            return out
+        i = item_of(event)
+        if a.passed_through > b.passed_through:
+            through(i)
+        elif a.rejected > b.rejected:
+            rec.rec("rej", i)
+        else:
+            rec.rec("psh", i)
+        return out
+
+    res.handle_event = handle
+    err = _run_station(res, rec, arr, extra_entities=(sink,), pre=[lambda: res.start_events()],
+                       end_tick=int(sched[-1][1]) + 3)
+    prm = dict(PIPE_PRM, kind="fifo", cap=INF if qc == 0 else qc)
+    passed = sum(1 for r in rec.log if r[0] == "fin")
+    tr = _trace(prm, prm["cap"], [1], [0] * n, [1] * n, INF if initially_open else 0, rec.log, idle=1, order=1,
+                cnt=1, sink=1, fin=[res.stats.queued_while_closed, res.stats.passed_through], wk="gate")
+    tr["fin"][1] = passed if passed == res.stats.passed_through else -1
+    return tr, err
+
+
+def station_conveyor(rng: random.Random):
+    from happysimulator.components.industrial.conveyor import ConveyorBelt
+
+    tick_ns = 10 ** 9
+    n = rng.randint(2, 8)
+    arr = _arrivals(rng, n, rng.choice((0, 1, 2)))
+    cap = rng.choice((0, 1, 2, 3))
+    res = ConveyorBelt("belt", downstream=None, transit_time=float(rng.randint(0, 2)), capacity=cap)
+    rec = _station_rec(tick_ns, res, lambda: 0,
+                       lambda: (res.items_in_transit, INF if cap == 0 else cap, res.items_rejected))
+    sink = Sink(rec)
+    res.downstream = sink
+    orig = res.handle_event
+
+    def drive(gen, i):
+        v = next(gen)
+        rec.rec("sta", i)
+        sent = yield v
+        try:
+            gen.send(sent)
+        except StopIteration as e:
+            rec.rec("fin", i)
+            return e.value
+        raise RuntimeError("ConveyorBelt generator yielded twice")
+
+    def handle(event):
+        i = item_of(event)
+        b = res.items_rejected
+        out = orig(event)
+        if isinstance(out, Generator):
+            return drive(out, i)
+        if res.items_rejected > b:
+            rec.rec("rej", i)
+        return out
+
+    res.handle_event = handle
+    err = _run_station(res, rec, arr, extra_entities=(sink,))
+    prm = dict(PIPE_PRM, kind="fifo", cap=0)
+    tr = _trace(prm, 0, [1], [0] * n, [1] * n, INF if cap == 0 else cap, rec.log, idle=0, order=0, cnt=1, sink=1,
+                fin=[0, res.items_transported], wk="conveyor")
+    return tr, err
+
+
+def station_batch(rng: random.Random):
+    from happysimulator.components.industrial.batch_processor import _BATCH_TIMEOUT, BatchProcessor
+
+    tick_ns = 10 ** 9
+    n = rng.randint(2, 9)
+    arr = _arrivals(rng, n, rng.choice((0, 1, 3)))
+    bs = rng.randint(1, 4)
+    timeout = float(rng.choice((0, 0, 1, 2)))
+    state = {"n": 0, "depth": None}
+    res = BatchProcessor("batch", downstream=None, batch_size=bs, process_time=float(rng.randint(0, 2)),
+                         timeout_s=timeout)
+    rec = _station_rec(tick_ns, res, lambda: res.buffer_depth if state["depth"] is None else state["depth"],
+                       lambda: (state["n"], INF, 0))
+    sink = Sink(rec)
+    res.downstream = sink
+    orig = res.handle_event
+
+    def drive(gen):
+        batch = [item_of(e) for e in res._buffer]      # what the first segment is about to take
+        v = next(gen)
+        state["depth"] = len(batch)
+        for j in batch:
+            state["depth"] -= 1
+            rec.rec("pop", j)
+            state["n"] += 1
+            rec.rec("sta", j)
+        state["depth"] = None
+        sent = yield v
+        try:
+            gen.send(sent)
+        except StopIteration as e:
+            for j in batch:
+                state["n"] -= 1
+                rec.rec("fin", j)
+            return e.value
+        raise RuntimeError("BatchProcessor generator yielded twice")
+
+    def handle(event):
+        out = orig(event)
+        if event.event_type != _BATCH_TIMEOUT:
+            rec.rec("psh", item_of(event))
+        if isinstance(out, Generator):
+            return drive(out)
+        return out
+
+    res.handle_event = handle
+    err = _run_station(res, rec, arr, extra_entities=(sink,))
+    prm = dict(PIPE_PRM, kind="fifo", cap=INF)
+    tr = _trace(prm, INF, [1], [0] * n, [1] * n, INF, rec.log, idle=0, order=1, cnt=0, sink=1,
+                fin=[sum(1 for r in rec.log if r[0] == "psh"), res.items_processed], wk="batch")
+    if timeout == 0:
+        tr["log"][-1][1] = 0      # a partial batch without timeout legitimately stays buffered
+    return tr, err
+
+
+STATIONS = [station_reneging, station_pooled, station_gate, station_conveyor, station_batch]
